@@ -591,7 +591,10 @@ class Interp:
 
     def x_Raise(self, st):
         if st.exc is None:
-            raise Unsupported("bare raise")
+            handling = getattr(self, "handling", [])
+            if not handling:
+                raise Unsupported("bare raise outside an except block")
+            raise PyRaise(handling[-1])  # re-raise the exception being handled
         e = self.eval(st.exc)
         if isinstance(e, ClassVal):
             e = self.instantiate(e.cls, [], {})
@@ -623,7 +626,13 @@ class Interp:
                 if ok:
                     if h.name:
                         self.frames[-1].env[h.name] = pr.exc
-                    self.exec_block(h.body)
+                    if not hasattr(self, "handling"):
+                        self.handling = []
+                    self.handling.append(pr.exc)
+                    try:
+                        self.exec_block(h.body)
+                    finally:
+                        self.handling.pop()
                     return
             raise
 
@@ -1145,6 +1154,7 @@ class Interp:
         fr = self._comp_frame()
         self.frames.append(fr)
         self.pure += 1
+        n_guards = len(self.pure_guards)
         try:
             if src.src_kind == "items":
                 self.assign(g.target, (Sym(kv), D.wrap(z3.Select(D.val, kv))))
@@ -1158,6 +1168,15 @@ class Interp:
         finally:
             self.pure -= 1
             self.frames.pop()
+        guards = self.pure_guards[n_guards:]
+        del self.pure_guards[n_guards:]
+        for gd in guards:
+            # what the body needs in order not to raise; a need that does not depend on the key is decided here
+            # (the comprehension raises - over-approximated as "whenever the need fails", also for an empty dict)
+            if any(x.eq(kv) for x in _consts_of(gd)):
+                raise Unsupported("key-dependent exception inside a dict comprehension over a symbolic dict")
+            if not self.ctx.branch(gd, "comprehension body does not raise"):
+                raise PyRaise(BuiltinExc("KeyError", ("comprehension",)))
         dom = z3.Lambda([kv], AND(z3.Select(D.dom, kv), *conds))
         ve = getattr(val, "e", None)
         if ve is None:
@@ -1191,6 +1210,19 @@ class Interp:
                 fs.append(z3.BoolVal(bool(self.truthy(v))))
         f = z3.simplify(OR(*fs) if which == "any" else AND(*fs))
         return _unsym(f)
+
+
+def _consts_of(e):
+    out, todo, seen = [], [e], set()
+    while todo:
+        x = todo.pop()
+        if x.get_id() in seen:
+            continue
+        seen.add(x.get_id())
+        if z3.is_const(x) and x.decl().kind() == z3.Z3_OP_UNINTERPRETED:
+            out.append(x)
+        todo.extend(x.children())
+    return out
 
 
 _INPLACE_DONE = object()
